@@ -1,5 +1,6 @@
 """C12 configuration for ./check"""
 CONF = {
+    'coq_sample': 12,   # cases re-evaluated inside Coq by vm_compute against the extracted runner's output
     'interesting': ['lookup-race-lost', 'both-directions-race', 'close-between-lookup-and-lock', 'recycle'],
     'rule': 'Cases = thread programs (2-3 assemblers, at most 7 calls each: packets of 1-3 flows x 2 directions built from '
             'SYN / 2-byte data segments / FIN at fixed offsets, dealt to the assemblers one-direction-per-assembler, at random, or with '
